@@ -33,7 +33,7 @@ CE = "symplyphysics.core.dimensions.collect_expression"
 SYM = "symplyphysics.core.operations.symbolic"
 
 
-def tree_family(lv: Leaves) -> list:
+def tree_family(lv: Leaves, deep: bool = False) -> list:
     L, Tm, M = Dim.of(length=1), Dim.of(time=1), Dim.of(mass=1)
     a, b, c = lv.symbol("a", L), lv.symbol("b", L), lv.symbol("c", Tm)
     q, r, z = lv.quantity("q", L), lv.quantity("r", Tm), lv.quantity("z", Tm, zero=True)
@@ -92,6 +92,15 @@ def tree_family(lv: Leaves) -> list:
         add(f"Pow(f(t), {n1})", Node("Pow", [f, t1]))
         add(f"Abs({n1})", Node("Abs", [t1]))
         add(f"exp({n1})", Node("Function", [t1], name="exp"))
+    if deep:
+        # thorough: compound x compound at depth three, every sum-like and product node kind
+        for (n1, t1), (n2, t2) in itertools.product(compound, repeat=2):
+            for cls in ("Mul", "Add", "Min", "Max"):
+                add(f"{cls}({n1}, {n2})", Node(cls, [t1, t2]))
+            add(f"Pow({n1}, {n2})", Node("Pow", [t1, t2]))
+        for n1, t1 in compound:
+            add(f"Derivative(f(t)*({n1}), t)", Node("Derivative", [Node("Mul", [f, t1]), [t, 1]]))
+            add(f"Derivative(f(t), t) + {n1}", Node("Add", [Node("Derivative", [f, [t, 1]]), t1]))
     return out
 
 
@@ -137,7 +146,7 @@ class EReader(QReader):
 def _collector(run: Run) -> None:
     m = run.src.need(CE)
     lv = Leaves()
-    fam = tree_family(lv)
+    fam = tree_family(lv, run.tier == "thorough")
     run.require(len(fam) >= 600, "tree family shrank")
     reported = set()
     for label, tree in fam:
